@@ -17,8 +17,11 @@ is `MoveGenerator::compute_legal_moves`; that it is the rules of chess is C01).
 * `C05_stalemate`: needs the soundness of the `king_has_move` shortcut for positions NOT in check,
   `ShortcutSoundNoCheck s`; `C05_shortcut_sound` proves it from the ray lemmas (C09) for every
   placement without stacked pieces, giving `C05_stalemate_closed`.
-* `C05_nonterminal_branch`: a position with a legal move always gets the heuristic score;
-  `C05_nonterminal_partial`: that score is non-terminal when `|material| + positional < 10000`.
+* `C05_nonterminal_branch`: a position with a legal move always gets the heuristic score, clamped to
+  `[NEG_INF + 1, POS_INF - 1]` since the repair of defect F10 (`clampHeuristic`);
+  `C05_nonterminal_partial`: that score is non-terminal when `|material| + positional < 10000`
+  (kept from the development before the repair; since the repair the bound is not needed any more:
+  `C05_nonterminal_unconditional`, `C05_all` in `Wee/Props/Clamped.lean`).
 -/
 namespace Wee.C05
 open Gen
@@ -225,8 +228,10 @@ theorem C05_heuristic_bound (s : State) (c : Color) :
   unfold materialDiff positionalDiff; omega
 
 /-- **C05_nonterminal_partial.**  A position with a legal move whose material difference plus
-positional differences stays below `POS_INF = 10000` gets a non-terminal score.
-What is missing for the full `C05_nonterminal_statement`: a bound `positionalDiff s c ≤ K` with
+positional differences stays below `POS_INF = 10000` gets a non-terminal score (and the clamp of
+F10's repair does not change it: `clampHeuristic_id`).  Since the repair the hypothesis `hb` is
+redundant — `C05_nonterminal_unconditional` (`Wee/Props/Clamped.lean`) — the theorem is kept with its
+signature.  What was missing before the repair for the full `C05_nonterminal_statement`: a bound `positionalDiff s c ≤ K` with
 `K ≤ 1000` for legal positions (the only unconditional bound is the crude
 `positionalDiff ≤ 1497600 + 2280 + 720` of `C13_evaluator_bounds`, because an arbitrary `State` may
 hold 64 pieces of each kind), and `legalMoves? s` being the rules of chess (C01). -/
@@ -261,8 +266,11 @@ reduces it to the bound `positionalDiff s c ≤ 10000 - 9000 = 1000` for positio
 at most 16 men a side; that bound needs per-piece-type table bounds and a sharper range of
 `end_game_weight` than the crude `|egw| ≤ 19` used here, and with `|material| < 9000` it is tight
 (piece-square sums alone can reach `0.8 · 2 · 15 · 50 = 1200`), so the threshold 9000 may have to
-be lowered.  The threshold is needed at all because the "heuristic" score is unbounded in the
-material: nine queens, two rooks and a minor piece against a bare king already give ≥ 10000. -/
+be lowered.  The threshold was needed at all because the "heuristic" score is unbounded in the
+material: nine queens, two rooks and a minor piece against a bare king already give ≥ 10000.
+(Proved as `C05_nonterminal` in `Wee/Props/C05Closed.lean`; since the repair of F10 — the heuristic
+result is clamped — the statement holds without the material and men hypotheses:
+`C05_nonterminal_all` in `Wee/Props/Clamped.lean`.) -/
 def C05_nonterminal_statement : Prop :=
   ∀ (s : State) (c : Color) (d : Nat), OneKingEach s → (∀ c, (Piece.all.map (pieceCount s c)).sum ≤ 16) →
     (∃ m ms, legalMoves? s = some (m :: ms)) → (materialDiff s c).natAbs < 9000 →
